@@ -138,8 +138,8 @@ func findAddedDeletedRetainedTables(
 		tableNames := tableDepthMapNew[depth]
 		sort.Strings(tableNames)
 		for _, tableName := range tableNames {
-			_, ok := tableMapOld[tableName]
-			if ok {
+			// a type that was not a table before is a new table
+			if tableMapOld[tableName].GetRelation() != nil {
 				tableDetails := MakeTableDetails(tableMapNew[tableName],
 					tableMapOld[tableName], Retain, tableName)
 				tableWithAction = append(tableWithAction, *tableDetails)
@@ -173,6 +173,9 @@ func (v *ScriptView) generateDatabaseScriptModify(tableDetails []TableDetails,
 
 	visitedAttributes := map[string]string{}
 	for _, tableDetail := range tableDetails {
+		if tableDetail.table.GetRelation() == nil {
+			continue // a type that is not a table
+		}
 		switch tableDetail.action {
 		case "ADD":
 			v.writeCreateSQLForATable(tableDetail.name, tableDetail.table.GetRelation(), visitedAttributes)
